@@ -510,7 +510,10 @@ def replay_case(prop, r, cfg):
     cmd = [exe, prop, "--tier", r.get("tier", "quick"), "--seed", str(r.get("seed", 1)),
            "--shard", "%d/%d" % (r.get("shard", 0), r.get("nshards", 1)), "--only", str(r.get("index", 0)), "--verbose"]
     cmd += r.get("extra_args", [])
-    p = run_proc(cmd, None, 600)
+    if cfg["bin"] == "par":
+        # the scenario is reproduced exactly, the OS schedule is not: repeat it
+        cmd += ["--repeat", "500"]
+    p = run_proc(cmd, None, 900)
     rep = parse_report(p["out"])
     sys.stderr.write(p["err"][-6000:])
     if rep is None:
